@@ -44,8 +44,15 @@ Definition cfg_ok (g : cfg) : bool :=
   (0 <=? g_nm g) && (g_nm g * ML + ML <? two31) && (0 <=? g_nv g) && (g_nv g * CL + CL <? two31)
   && (0 <=? g_timeout g) && (g_timeout g <? two63).
 
+(* an allocation whose key callback also takes a reader snapshot is, for every clause but [c_snapshot],
+   the allocation with that key callback *)
+Definition norm_op (o : op) : op :=
+  match o with AllocSnap t k l => Alloc t (KFunc k) l | _ => o end.
+Definition norm_ob (ob : obs) : obs :=
+  match ob with OSnap r va ids _ => OStep r va ids | _ => ob end.
+
 Definition contract_step (g : cfg) (o : op) (sp : spec) : bool :=
-  match o with
+  match norm_op o with
   | Alloc t ks _ => in_i32 t && (match ks with KFunc k => zlen k <=? MAXKEY | _ => true end)
   | Free id => memb id (sp_live sp)
   (* a value write is legal on a live counter and - the reason the cool-down exists - as a late write of
@@ -53,6 +60,7 @@ Definition contract_step (g : cfg) (o : op) (sp : spec) : bool :=
   | SetVal id v => (memb id (sp_live sp) || memb id (sp_freed sp)) && in_u64 v
   | SetClock t => (0 <=? t) && (t + g_timeout g <? two63)
   | Dump => true
+  | AllocSnap _ _ _ => true
   end.
 
 Definition stored_key (ks : keysrc) : list Z := match ks with KOpt k => k | KFunc k => k | _ => [] end.
@@ -77,14 +85,14 @@ Definition cres_eqb (r : cres Z) (v : Z) : bool := match r with COk x => x =? v 
 
 (* no id is handed out twice among live counters, and ids lie inside both buffers *)
 Definition c_unique (g : cfg) (o : op) (ob : obs) (sp : spec) : bool :=
-  match o, ob with
+  match norm_op o, norm_ob ob with
   | Alloc _ _ _, OStep (COk id) _ _ => (0 <=? id) && (id <? g_n g) && negb (memb id (sp_live sp))
   | _, _ => true
   end.
 
 (* a freed id comes back only after its cool-down, and a counter starts from zero *)
 Definition c_reuse (g : cfg) (o : op) (ob : obs) (sp : spec) : bool :=
-  match o, ob with
+  match norm_op o, norm_ob ob with
   | Alloc _ _ _, OStep (COk id) va _ =>
       (if memb id (sp_freed sp) then cooled g sp id else sp_used sp <? g_n g) && is_ok0 va
   | _, _ => true
@@ -93,7 +101,7 @@ Definition c_reuse (g : cfg) (o : op) (ob : obs) (sp : spec) : bool :=
 (* allocation fails exactly when an argument is bad or no slot can be handed out, by an error,
    and then the enumeration still shows the same counters; no operation of a history panics *)
 Definition c_fail_closed (g : cfg) (o : op) (ob : obs) (sp : spec) : bool :=
-  match o, ob with
+  match norm_op o, norm_ob ob with
   | Alloc _ ks label, OStep (COk _) _ _ => negb (args_bad ks label) && avail g sp
   | Alloc _ ks label, OStep (CErr _) _ ids => (args_bad ks label || negb (avail g sp)) && ids_ok ids (sp_live sp)
   | _, OStep r _ _ => is_ok0 r
@@ -114,7 +122,7 @@ Definition entry_ok (sp : spec) (e : entry) : bool :=
 
 (* the state of the live set after the operation, as the history determines it *)
 Definition live_after (o : op) (ob : obs) (sp : spec) : list Z :=
-  match o, ob with
+  match norm_op o, norm_ob ob with
   | Alloc _ _ _, OStep (COk id) _ _ => id :: sp_live sp
   | Free id, OStep (COk _) _ _ => remove_all id (sp_live sp)
   | _, _ => sp_live sp
@@ -123,7 +131,7 @@ Definition live_after (o : op) (ob : obs) (sp : spec) : list Z :=
 (* exactly the live counters are enumerated (after every operation: their ids; at a dump: with the
    type, key and label stored; the iterator yields the same records) *)
 Definition c_enumerate (o : op) (ob : obs) (sp : spec) : bool :=
-  match ob with
+  match norm_ob ob with
   | OStep _ _ ids => ids_ok ids (live_after o ob sp)
   | ODump (fe, it, _, _, _, _) =>
       match fe, it with
@@ -132,6 +140,7 @@ Definition c_enumerate (o : op) (ob : obs) (sp : spec) : bool :=
           && items_eqb li (map entry_item l)
       | _, _ => false
       end
+  | OSnap _ _ _ _ => false
   end.
 
 (* every accessor answers for every probed id; a live id reads back what was stored,
@@ -173,14 +182,32 @@ Definition c_total (g : cfg) (o : op) (ob : obs) (sp : spec) : bool :=
   end.
 
 Definition shape_ok (o : op) (ob : obs) : bool :=
-  match o, ob with Dump, ODump _ => true | Dump, _ => false | _, OStep _ _ _ => true | _, _ => false end.
+  match o, ob with
+  | Dump, ODump _ => true | Dump, _ => false
+  | AllocSnap _ _ _, OSnap _ _ _ _ => true | AllocSnap _ _ _, _ => false
+  | _, OStep _ _ _ => true | _, _ => false
+  end.
+
+(* a reader that runs while a counter is being allocated (during the key callback) still sees exactly the
+   counters stored so far: the enumeration is the live set from before the allocation, and the record of the
+   id being handed out does not show as allocated yet (a never-used one reads unused, a freed one reclaimed) *)
+Definition c_snapshot (o : op) (ob : obs) (sp : spec) : bool :=
+  match o, ob with
+  | AllocSnap _ _ _, OSnap (COk id) _ _ snap =>
+      match snap with
+      | [(sids, st)] => ids_ok sids (sp_live sp)
+                        && cres_eqb st (if memb id (sp_freed sp) then ST_RECLAIMED else ST_UNUSED)
+      | _ => false
+      end
+  | _, _ => true
+  end.
 
 Definition chk (g : cfg) (o : op) (ob : obs) (sp : spec) : bool :=
   shape_ok o ob && c_unique g o ob sp && c_reuse g o ob sp && c_fail_closed g o ob sp
-  && c_enumerate o ob sp && c_total g o ob sp.
+  && c_enumerate o ob sp && c_total g o ob sp && c_snapshot o ob sp.
 
 Definition spec_step (o : op) (ob : obs) (sp : spec) : spec :=
-  match o, ob with
+  match norm_op o, norm_ob ob with
   | Alloc t ks label, OStep (COk id) _ _ =>
       mkspec (id :: sp_live sp) (remove_first id (sp_freed sp))
              (if memb id (sp_freed sp) then sp_used sp else sp_used sp + 1)
